@@ -124,3 +124,6 @@ P['C10'] = dict(
 
 P['C19']['jobs'] += [dict(name='handshake_bytes', tu='harness/w_conn.cpp', entry='h_hostile_handshake', engine='B', clock=True, defs={'VK_SYMCFG': 0, 'VK_ATTEMPTS': 1}, defs_quick={'VK_BYTES': 5}, defs_thorough={'VK_BYTES': 8},
                           reach=['accepted', 'rejected', 'split', 'long-reply'], samples=10)]
+
+P['C19']['jobs'] += [dict(name='stream_bytes', tu='harness/w_hostile.cpp', entry='h_hostile_stream', engine='B', clock=True, defs_quick={'VK_BYTES': 5}, defs_thorough={'VK_BYTES': 8},
+                          reach=['split', 'completed', 'well-formed-accepted', 'malformed'], samples=10)]
